@@ -71,6 +71,9 @@ fn corruptions(h: &TInstance, rng: &mut Rng, limit: usize) -> Vec<(String, TInst
         let mut c = h.clone();
         c.values[k] = rng.felt();
         out.push((format!("cell[{k}]=rand"), c));
+        let mut c = h.clone();
+        c.values[k] += vcommon::pow_u128(Felt::TWO, 200);
+        out.push((format!("cell[{k}]+2^200"), c));
     }
     // moved between rows (same column) and between columns (same row)
     for _ in 0..6 {
